@@ -94,6 +94,10 @@ def strip(c):
 def shrink_steps(c):
     """smaller inputs: drop a block of steps, drop one step, drop a filter, blank a filter field"""
     c = strip(c)
+    if c.get("nest"):       # the flat handler first; fewer children only for the flat handler
+        c2 = dict(c)
+        c2.pop("nest")
+        yield c2
     steps = c.get("steps") or []
     n = len(steps)
     size = n // 2
@@ -122,7 +126,7 @@ def shrink_steps(c):
             if k - 1 > 1:
                 c2["sessions"] = k - 1
             yield c2
-    if c["n"] > 2:      # one child fewer: its messages go, higher indices move down
+    if c["n"] > 2 and not c.get("nest"):      # one child fewer: its messages go, higher indices move down
         for ch in range(c["n"]):
             st2 = []
             for st in steps:
